@@ -371,6 +371,11 @@ fn documents(thorough: bool) -> Vec<String> {
             docs.push(format!("<{el}><x-foo>{text}</x-foo>second line</{el}>"));
         }
     }
+    // class attributes whose classes are all allowed but not separated by exactly one space
+    for cls in ["language-rust  language-c", "language-sh ", " language-sh", "language-a\tlanguage-b", "language-a\nlanguage-b", "  ", "language-rust language-c"] {
+        docs.push(format!("<code class=\"{cls}\">x</code>"));
+        docs.push(format!("<pre><code class=\"{cls}\">x</code></pre>"));
+    }
     docs
 }
 
